@@ -1,6 +1,6 @@
 (* C01 -- canonicalisation is idempotent and re-readable.  ONLY statements closed by `exact`. *)
 From OV Require Import Base.Strs Syn.Escape Syn.Quote Syn.Ast Syn.Emitter Syn.Wf Lex.Pins_Lexer Gen.LexerGen
-     Syn.Pins_Emitter Gen.EmitterGen Lex.Lexer Syn.Parser Rt.TokRound.
+     Syn.Pins_Emitter Gen.EmitterGen Lex.Lexer Syn.Parser Rt.TokRound Rt.LexLinkBase Rt.LexLink.
 
 Theorem C01_escape_mirrors : forall s, escape_safe s = true -> unescape (escape s) = s.
 Proof. exact unescape_escape. Qed.
@@ -25,3 +25,22 @@ Theorem C01_core_reparse_all_depths :
     forall st0 ts tail, tail <> [] -> Forall2 tmatch ts (doc_sh d) -> ptoks st0 = ts ++ tail ->
     exists st', parse_document numcanon holo_ok true sp alpha st0 = POk d st' /\ wext st0 st'.
 Proof. exact (fun n h => parse_core_doc n h true). Qed.
+
+(* RE-READABLE AND A FIXPOINT, text level, every depth: the emitted text of a core document is accepted by the strict
+   reader model and reads back as the same document, so canonicalising it again emits the same text. *)
+Theorem C01_text_reparse_core :
+  forall cls numcanon holo_ok sp d,
+    core_doc d = true -> lex_safe_doc d = true -> nums_ok_l numcanon (dsections d) ->
+    exists warns, parse_model cls numcanon holo_ok true (lines_of (emit sp d)) = PRDoc d [] warns /\ Forall advisory warns.
+Proof. exact (fun cls n h => text_roundtrip_core cls n h true). Qed.
+
+Theorem C01_text_fixpoint_core :
+  forall cls numcanon holo_ok strict sp d,
+    core_doc d = true -> lex_safe_doc d = true -> nums_ok_l numcanon (dsections d) ->
+    exists d' warns, parse_model cls numcanon holo_ok strict (lines_of (emit sp d)) = PRDoc d' [] warns /\ emit sp d' = emit sp d.
+Proof.
+  exact (fun cls n h s sp d Hc Hl Hn =>
+           match text_roundtrip_core cls n h s sp d Hc Hl Hn with
+           | ex_intro _ w (conj Hp _) => ex_intro _ d (ex_intro _ w (conj Hp eq_refl))
+           end).
+Qed.
